@@ -156,7 +156,7 @@ func toPsth(s *ct.SignedTreeHead) (psth, bool) {
 }
 
 func (p psth) coq() string {
-	return fmt.Sprintf("(mk %s %s %s %s %s %s)", lib.Nn(p.Version), lib.Nn(p.Size), lib.Nn(p.Time), lib.Hex(p.Root), lib.Hex(p.Sig), lib.Hex(p.LogID))
+	return curCB.term(fmt.Sprintf("(mk %s %s %s %s %s %s)", lib.Nn(p.Version), lib.Nn(p.Size), lib.Nn(p.Time), hx(p.Root), hx(p.Sig), hx(p.LogID)))
 }
 
 func (p psth) sameSigned(q psth) bool {
@@ -302,14 +302,25 @@ func (o *obsT) bodyCoq() string {
 	case o.body == nil:
 		return "XNone"
 	case o.cosigned:
-		return fmt.Sprintf("(XCosigned %s %s %s)", o.p.coq(), lib.Hex(o.enc), lib.Bool(o.verified))
+		return fmt.Sprintf("(XCosigned %s %s %s)", o.p.coq(), hx(o.enc), lib.Bool(o.verified))
 	default:
-		return "(XRaw " + rawName(o.body) + ")"
+		return "(XRaw " + rawTag(o.body) + ")"
 	}
 }
 
-// rawName is replaced per case by the let-bound name of the raw (see caseBuilder).
-var rawName = func(b []byte) string { return lib.Hex(b) }
+// curCB is the builder of the case being rendered: byte strings and decoded STHs are
+// let-bound once per case (Coq spends its time parsing hex literals, not evaluating).
+var curCB = newCaseBuilder()
+
+func hx(b []byte) string { return curCB.name(b) }
+
+// rawTag: the model only ever compares raw STH bytes for equality (table key, echoed body),
+// so the case carries a 96-bit digest of each raw instead of ~350 bytes of JSON (Coq's cost is
+// parsing literals).  The JSON mirror of the case keeps the bytes themselves.
+func rawTag(b []byte) string {
+	d := sha256.Sum256(append([]byte("raw:"), b...))
+	return curCB.name(d[:12])
+}
 
 func (o *obsT) coq() string {
 	switch o.kind {
@@ -321,7 +332,7 @@ func (o *obsT) coq() string {
 		}
 		var xs []string
 		for _, l := range o.logs {
-			xs = append(xs, lib.Hex([]byte(l)))
+			xs = append(xs, hx([]byte(l)))
 		}
 		return "(XLogs (Some " + lib.List(xs) + "))"
 	case "http":
@@ -393,9 +404,9 @@ type opT struct {
 func (o *opT) coq() string {
 	switch o.kind {
 	case "update":
-		return fmt.Sprintf("(OUpdate %s %s %s %s)", lib.Hex([]byte(o.log.id)), rawName(o.raw), hexList(o.proof), o.fault)
+		return fmt.Sprintf("(OUpdate %s %s %s %s)", hx([]byte(o.log.id)), rawTag(o.raw), hexList(o.proof), o.fault)
 	case "getsth":
-		return fmt.Sprintf("(OGetSTH %s %s)", lib.Hex([]byte(o.log.id)), lib.Bool(o.fault != "NoFault"))
+		return fmt.Sprintf("(OGetSTH %s %s)", hx([]byte(o.log.id)), lib.Bool(o.fault != "NoFault"))
 	}
 	return fmt.Sprintf("(OGetLogs %s)", lib.Bool(o.fault != "NoFault"))
 }
@@ -549,31 +560,40 @@ func (h *harness) randLeaves(n int) [][]byte {
 	return ls
 }
 
-// caseBuilder assembles the Coq term of a CHist case with the raws let-bound once.
+// caseBuilder assembles the Coq term of a case with every byte string (>= 8 bytes) and every
+// decoded STH let-bound once.
 type caseBuilder struct {
-	raws  map[string]int
-	order [][]byte
+	names map[string]string
+	lets  []string
 }
 
-func newCaseBuilder() *caseBuilder { return &caseBuilder{raws: map[string]int{}} }
+func newCaseBuilder() *caseBuilder { return &caseBuilder{names: map[string]string{}} }
 
 func (cb *caseBuilder) name(b []byte) string {
-	k := string(b)
-	if i, ok := cb.raws[k]; ok {
-		return fmt.Sprintf("r%d", i)
+	if len(b) < 8 {
+		return lib.Hex(b)
 	}
-	cb.raws[k] = len(cb.order)
-	cb.order = append(cb.order, b)
-	return fmt.Sprintf("r%d", len(cb.order)-1)
+	k := "b:" + string(b)
+	if n, ok := cb.names[k]; ok {
+		return n
+	}
+	n := fmt.Sprintf("b%d", len(cb.lets))
+	cb.names[k] = n
+	cb.lets = append(cb.lets, fmt.Sprintf("let %s := %s in ", n, lib.Hex(b)))
+	return n
+}
+
+func (cb *caseBuilder) term(t string) string {
+	k := "t:" + t
+	if n, ok := cb.names[k]; ok {
+		return n
+	}
+	n := fmt.Sprintf("t%d", len(cb.lets))
+	cb.names[k] = n
+	cb.lets = append(cb.lets, fmt.Sprintf("let %s := %s in ", n, t))
+	return n
 }
 
 func (cb *caseBuilder) wrap(term string) string {
-	var sb strings.Builder
-	sb.WriteString("(")
-	for i, b := range cb.order {
-		fmt.Fprintf(&sb, "let r%d := %s in ", i, lib.Hex(b))
-	}
-	sb.WriteString(term)
-	sb.WriteString(")")
-	return sb.String()
+	return "(" + strings.Join(cb.lets, "") + term + ")"
 }
